@@ -63,6 +63,13 @@ def gen_cases(ctx):
         inst = gen.gen_instance(rng, rng.choice(gen.NONFLEX_CLASSES), max_jobs=rng.choice([2, 3, 4]),
                                 max_machines=rng.choice([2, 3, 4]))
         yield {"kind": "sequences", "instance": inst, "seed": rng.randrange(2**31)}
+    if ctx.shard == 0:
+        # one very long job (1300 operations alternating between two machines) next to a short one:
+        # decoding its job sequences is a matter of iteration, not of stack depth
+        n = 1300
+        yield {"kind": "long_sequences", "seed": rng.randrange(2**31),
+               "instance": {"cls": "long", "durations": [[1 + (k % 3) for k in range(n)], [2, 1]],
+                            "machines": [[[k % 2] for k in range(n)], [[1], [0]]]}}
     names = ["ft06", "la01", "orb01", "abz5"] if ctx.tier == "quick" else [
         "ft06", "ft10", "ft20", "la01", "la06", "la16", "la21", "la31", "orb01", "abz5", "abz7",
         "swv01", "yn1", "ta01", "ta11", "ta31"]
@@ -410,6 +417,34 @@ def run_sequences(ctx, case):
     ctx.count("class_" + inst["cls"])
 
 
+def run_long_sequences(ctx, case):
+    from job_shop_lib import Schedule
+    inst = case["instance"]
+    run = Run(inst)
+    # job 1 first, then the long job from start to end
+    for o in (run.r.job_ops[1][0],):
+        run.dispatch(o, run.r.op_machines[o][0])
+    for o in run.r.job_ops[0]:
+        run.dispatch(o, run.r.op_machines[o][0])
+    run.dispatch(run.r.job_ops[1][1], run.r.op_machines[run.r.job_ops[1][1]][0])
+    S = run.d.schedule
+    seqs = [[so.job_id for so in lst] for lst in S.schedule]
+    try:
+        S2 = Schedule.from_job_sequences(run.instance, [list(q) for q in seqs])
+        S3 = Schedule.from_dict(**S.to_dict())
+    except BaseException as e:       # RecursionError is not an Exception subclass to rely on
+        if isinstance(e, (KeyboardInterrupt, SystemExit)):
+            raise
+        ctx.violation("c14_sequences_of_a_dispatcher_built_schedule_rejected",
+                      {"error": repr(e)[:200], "operations_in_the_long_job": len(inst["durations"][0])})
+        return
+    ctx.count("schedule_round_trips")
+    ctx.count("very_long_jobs_decoded")
+    if schedule_triples(S2) != schedule_triples(S) or schedule_triples(S3) != schedule_triples(S):
+        ctx.violation("c14_from_job_sequences_differs", {"operations": run.r.num_ops})
+    ctx.note_case(case, True, fingerprint="long-sequences")
+
+
 def run_immutability(ctx, case):
     rng = random.Random(case["seed"])
     inst = case["instance"]
@@ -520,4 +555,4 @@ def run_benchmark_views(ctx, case):
 
 def run_case(ctx, case):
     {"views": run_views, "sequences": run_sequences, "immutability": run_immutability,
-     "benchmark_views": run_benchmark_views}[case["kind"]](ctx, case)
+     "benchmark_views": run_benchmark_views, "long_sequences": run_long_sequences}[case["kind"]](ctx, case)
